@@ -1,5 +1,6 @@
 import Proofs.C18
 import Proofs.TieBuild
+import Proofs.TieLoopTail
 #print axioms PV.Proofs.C18.kt_in_loop
 #print axioms PV.Proofs.C18.loops_in_order
 #print axioms PV.Proofs.C18.factor_ratio
@@ -11,3 +12,6 @@ import Proofs.TieBuild
 #print axioms PV.Proofs.Tie.build_inner_tie
 #print axioms PV.Proofs.Tie.build_kt_ratio_tie
 #print axioms PV.Proofs.Tie.build_loops_tie
+#print axioms PV.Proofs.Tie.declared_translated_looptail
+#print axioms PV.Proofs.Tie.loop_tail_tie
+#print axioms PV.Proofs.Tie.loop_tail_frame
